@@ -230,6 +230,14 @@ func vfBal(t testing.TB, d *Pegnetd, a factom.FAAddress, tk fat2.PTicker) uint64
 	return b
 }
 
+func vfPending(t testing.TB, d *Pegnetd, tx *sql.Tx, a factom.FAAddress) uint64 {
+	b, err := d.Pegnet.SelectPendingBalance(tx, &a, fat2.PTickerUSD)
+	if err != nil {
+		t.Fatal(err)
+	}
+	return b
+}
+
 func vfStatus(t testing.TB, d *Pegnetd, h *factom.Bytes32) (height uint32, executed int32) {
 	height, executed, err := d.Pegnet.SelectTransactionHistoryStatus(h)
 	if err != nil {
